@@ -153,104 +153,115 @@ func c05Steps(r *vReport, idx *int64, maxSteps int) {
 			for _, p := range positions {
 				for _, tgt := range targets {
 					for wrap := range c05Wraps {
-						*idx++
-						if !r.Mine(*idx) {
-							continue
-						}
-						if *idx%4096 == 0 && r.Expired() {
-							return
-						}
-						expr := "${{ " + fmt.Sprintf(c05Wraps[wrap], "steps."+strings.ToUpper(tgt[:1])+tgt[1:]+".outputs.o") + " }}"
-						var b strings.Builder
-						line := 1
-						w := func(s string) { b.WriteString(s + "\n"); line++ }
-						w("on: push")
-						w("jobs:")
-						refLine := 0
-						for j := range shape {
-							w(fmt.Sprintf("  j%d:", j))
-							w("    runs-on: ubuntu-latest")
-							if p.job == j && p.field == "outputs" {
-								w("    outputs:")
-								refLine = line
-								w("      o: " + expr)
+						for early := 0; early < 2; early++ { // 1: the field with the reference is written before run:
+							if early == 1 && (p.step == -1 || p.field == "run" || p.field == "with") {
+								continue
 							}
-							if p.job == j && p.field == "environment-url" {
-								w("    environment:")
-								w("      name: prod")
-								refLine = line
-								w("      url: " + expr)
+							*idx++
+							if !r.Mine(*idx) {
+								continue
 							}
-							w("    steps:")
-							for k := 0; k < shape[j]; k++ {
-								first := true
-								item := func(s string) {
-									if first {
-										w("      - " + s)
-										first = false
-									} else {
-										w("        " + s)
-									}
-								}
-								if id := idOf(j, k); id != "" {
-									item("id: " + id)
-								}
-								here := p.job == j && p.step == k
-								uses := here && p.field == "with"
-								if uses {
-									item("uses: actions/checkout@v4")
-									item("with:")
+							if *idx%4096 == 0 && r.Expired() {
+								return
+							}
+							expr := "${{ " + fmt.Sprintf(c05Wraps[wrap], "steps."+strings.ToUpper(tgt[:1])+tgt[1:]+".outputs.o") + " }}"
+							var b strings.Builder
+							line := 1
+							w := func(s string) { b.WriteString(s + "\n"); line++ }
+							w("on: push")
+							w("jobs:")
+							refLine := 0
+							for j := range shape {
+								w(fmt.Sprintf("  j%d:", j))
+								w("    runs-on: ubuntu-latest")
+								if p.job == j && p.field == "outputs" {
+									w("    outputs:")
 									refLine = line
-									w("          ref: " + expr)
-								} else {
-									if here && p.field == "run" {
+									w("      o: " + expr)
+								}
+								if p.job == j && p.field == "environment-url" {
+									w("    environment:")
+									w("      name: prod")
+									refLine = line
+									w("      url: " + expr)
+								}
+								w("    steps:")
+								for k := 0; k < shape[j]; k++ {
+									first := true
+									item := func(s string) {
+										if first {
+											w("      - " + s)
+											first = false
+										} else {
+											w("        " + s)
+										}
+									}
+									if id := idOf(j, k); id != "" {
+										item("id: " + id)
+									}
+									here := p.job == j && p.step == k
+									uses := here && p.field == "with"
+									if uses {
+										item("uses: actions/checkout@v4")
+										item("with:")
 										refLine = line
-										item("run: echo " + expr)
+										w("          ref: " + expr)
 									} else {
-										item("run: echo")
-									}
-									if here && p.field == "working-directory" {
-										refLine = line
-										item("working-directory: " + expr)
-									}
-								}
-								if here {
-									switch p.field {
-									case "name":
-										refLine = line
-										item("name: " + expr)
-									case "if":
-										refLine = line
-										item("if: " + strings.Replace(expr, " }}", " == 'x' }}", 1))
-									case "env":
-										item("env:")
-										refLine = line
-										w("          V: " + expr)
-									case "timeout-minutes":
-										refLine = line
-										item("timeout-minutes: " + expr)
-									case "continue-on-error":
-										refLine = line
-										item("continue-on-error: " + strings.Replace(expr, " }}", " == 'x' }}", 1))
+										// the field that carries the reference: written after run: or (early) before it
+										field := func() {
+											switch p.field {
+											case "working-directory":
+												refLine = line
+												item("working-directory: " + expr)
+											case "name":
+												refLine = line
+												item("name: " + expr)
+											case "if":
+												refLine = line
+												item("if: " + strings.Replace(expr, " }}", " == 'x' }}", 1))
+											case "env":
+												item("env:")
+												refLine = line
+												w("          V: " + expr)
+											case "timeout-minutes":
+												refLine = line
+												item("timeout-minutes: " + expr)
+											case "continue-on-error":
+												refLine = line
+												item("continue-on-error: " + strings.Replace(expr, " }}", " == 'x' }}", 1))
+											}
+										}
+										if here && early == 1 {
+											field()
+										}
+										if here && p.field == "run" {
+											refLine = line
+											item("run: echo " + expr)
+										} else {
+											item("run: echo")
+										}
+										if here && early == 0 {
+											field()
+										}
 									}
 								}
 							}
-						}
-						// scope rule
-						defined := false
-						for k := 0; k < shape[p.job]; k++ {
-							if idOf(p.job, k) == tgt && (p.step == -1 || k < p.step) {
-								defined = true
+							// scope rule
+							defined := false
+							for k := 0; k < shape[p.job]; k++ {
+								if idOf(p.job, k) == tgt && (p.step == -1 || k < p.step) {
+									defined = true
+								}
 							}
-						}
-						what := "step-field:" + p.field
-						if p.step == -1 {
-							what = "job-" + p.field
-						}
-						desc := fmt.Sprintf("shape=%v ids=%b ref at job %d step %d field %s wrap %d -> %s", shape, mask, p.job, p.step, p.field, wrap, tgt)
-						c05Judge(r, "steps", desc, b.String(), []c05Ref{{refLine, tgt, defined, what}}, nil)
-						if *idx%15013 == 0 {
-							r.Sample(map[string]any{"family": "steps", "case": desc, "in_scope": defined})
+							what := "step-field:" + p.field
+							if p.step == -1 {
+								what = "job-" + p.field
+							}
+							desc := fmt.Sprintf("shape=%v ids=%b ref at job %d step %d field %s (before run: %d) wrap %d -> %s", shape, mask, p.job, p.step, p.field, early, wrap, tgt)
+							c05Judge(r, "steps", desc, b.String(), []c05Ref{{refLine, tgt, defined, what}}, nil)
+							if *idx%15013 == 0 {
+								r.Sample(map[string]any{"family": "steps", "case": desc, "in_scope": defined})
+							}
 						}
 					}
 				}
@@ -483,6 +494,34 @@ func c05Matrix(r *vReport, idx *int64) {
 }
 
 // (c2) a job sees only its own matrix: jobs with and without a matrix side by side, both orders
+// c05MatrixInvalidRows: a row key whose VALUE is not a list of values (empty list, mapping, nested
+// empty list) is reported for its value - and is still a row key: references to it are in scope,
+// references to other names are not.
+func c05MatrixInvalidRows(r *vReport, idx *int64) {
+	for _, bad := range []string{"[]", "{a: b}", "[[]]"} {
+		for _, other := range []string{"", "        v: [1]\n", "        include:\n          - inc: 1\n"} {
+			for _, first := range []bool{true, false} {
+				*idx++
+				if !r.Mine(*idx) {
+					continue
+				}
+				rows := "        Bad: " + bad + "\n"
+				if first {
+					rows += other
+				} else {
+					rows = other + rows
+				}
+				src := "on: push\njobs:\n  a:\n    runs-on: ubuntu-latest\n    strategy:\n      matrix:\n" + rows + "    steps:\n"
+				line := strings.Count(src, "\n") + 1
+				src += "      - run: echo ${{ matrix.bad }}\n      - run: echo ${{ matrix.BAD.x }}\n      - run: echo ${{ matrix.nope }}\n"
+				refs := []c05Ref{{line, "bad", true, "matrix.<row with invalid values>"}, {line + 1, "bad", true, "matrix.<row with invalid values>"}}
+				refs = append(refs, c05Ref{line + 2, "nope", false, "matrix.<undefined> next to a row with invalid values"})
+				c05Judge(r, "matrix-invalid-row", fmt.Sprintf("row value %s other=%q first=%v", bad, other, first), src, refs, nil)
+			}
+		}
+	}
+}
+
 func c05MatrixAcrossJobs(r *vReport, idx *int64) {
 	definers := map[string]string{
 		"step-job-matrix":     "  definer:\n    runs-on: ubuntu-latest\n    strategy:\n      matrix:\n        ka: [1]\n        kb: [2]\n    steps:\n      - run: echo ${{ matrix.ka }}\n",
@@ -942,6 +981,7 @@ func TestVerifC05(t *testing.T) {
 	c05Positions(r, &idx)
 	c05InputsSecrets(r, &idx)
 	c05InputsEverywhere(r, &idx)
+	c05MatrixInvalidRows(r, &idx)
 	c05ExprIDs(r, &idx)
 	c05NeedsProject(t, r, &idx)
 }
